@@ -27,6 +27,19 @@ static inline void out_num(struct tokout* o, long v) {
 #define OUT_NUM(o, x) out_num(o, (long)(x))
 /* floor() for |x| < 2^52 (CBMC 6.11's built-in model of floor aborts with an internal error) */
 static inline double vfloor(double x) { __CPROVER_assert(x > -4.0e15 && x < 4.0e15, "model: floor() only for small magnitudes"); long t = (long)x; double r = (double)t; return r > x ? r - 1.0 : r; }
+/* ---- input text of the encoder as a token sequence: numbers and null values, separated as the type expects ---- */
+#define TOKC 6
+struct iss { int kind[TOKC]; long val[TOKC]; size_t n, pos; };       /* kind: 0 = "-", 1 = decimal number, 2 = anything else */
+static inline _Bool env_eof(const struct iss* in) { return in->pos >= in->n; }
+static inline _Bool env_getline(struct iss* in, int* tok) { if (in->pos >= in->n || in->pos >= TOKC) return 0; *tok = (int)in->pos; in->pos = in->pos + 1; return 1; }
+static inline _Bool env_tok_null(const struct iss* in, int tok) { __CPROVER_assert(tok >= 0 && tok < TOKC, "[C20] token read before use"); return in->kind[tok >= 0 && tok < TOKC ? tok : 0] == 0; }
+static inline unsigned env_tok_int(const struct iss* in, int tok, unsigned lo, unsigned hi, result_t* res) {
+  __CPROVER_assert(tok >= 0 && tok < TOKC, "[C20] token read before use");
+  int k = tok >= 0 && tok < TOKC ? tok : 0;
+  if (in->kind[k] != 1 || in->val[k] < 0) { *res = RESULT_ERR_INVALID_NUM; return 0; }
+  if ((unsigned long)in->val[k] < lo || (unsigned long)in->val[k] > hi) { *res = RESULT_ERR_OUT_OF_RANGE; return 0; }
+  *res = RESULT_OK; return (unsigned)in->val[k];
+}
 #include "gen_protos.h"
 #include "gen_funcs.inc"
 
@@ -92,7 +105,7 @@ void h_min(void) {
   SymbolString in = slave_with(2); struct tokout o; out_init(&o);
   unsigned n = in.m_data.d[1] | ((unsigned)in.m_data.d[2] << 8);
   result_t r = DTT_readSymbols(&dtt_MIN, 0, 2, &in, 0, &o);
-  if (in.m_data.d[1] == 0xff || in.m_data.d[2] == 0xff) { }    /* replacement bytes: partial null output, not specified here */
+  if (n == 0xffff) { __CPROVER_assert(r == RESULT_OK && o.n == 3 && IS_STR(&o, 0, '-') && IS_STR(&o, 1, ':') && IS_STR(&o, 2, '-'), "[C05] the replacement pattern ff ff decodes to the null time -:-"); CANARY("null"); }
   else if (n > 24 * 60) { __CPROVER_assert(r == RESULT_ERR_OUT_OF_RANGE, "[C05] more than 24:00 is rejected"); CANARY("out of range"); }
   else {
     __CPROVER_assert(r == RESULT_OK && o.n == 3 && IS_NUM(&o, 0, 2) && IS_STR(&o, 1, ':') && IS_NUM(&o, 2, 2), "[C05] minutes since midnight are shown as hh:mm");
@@ -207,3 +220,49 @@ void h_charstr(void) {
   if (k < n && o.n == n) { __CPROVER_assert(o.kind[k] == TK_CHAR && o.val[k] == exp[k], "[C05] character k is byte k (control characters as the replacement character, other non-printable bytes as ?)"); }
   if (n == 2 && term) { CANARY("terminated string"); }
 }
+
+/* ---------------- C06: what is decoded can be encoded back (date / time types) ---------------- */
+/* the decoded tokens become the encoder's input: numbers as numbers, "-" as null, separators as the type expects */
+static inline _Bool tokens_to_input(const struct tokout* o, struct iss* in, _Bool* any_null, _Bool* all_null) {
+  in->n = 0; in->pos = 0; *any_null = 0; *all_null = 1; _Bool ok = 1;
+  for (size_t k = 0; k < TCAP; k++) {
+    if (k < o->n) {
+      if (o->kind[k] == TK_NUM) { if (in->n < TOKC) { in->kind[in->n] = 1; in->val[in->n] = o->val[k]; in->n = in->n + 1; } else ok = 0; *all_null = 0; }
+      else if (o->kind[k] == TK_STR && o->val[k] == (long)'-') { if (in->n < TOKC) { in->kind[in->n] = 0; in->val[in->n] = 0; in->n = in->n + 1; } else ok = 0; *any_null = 1; }
+    }
+  }
+  return ok;
+}
+/* weekday byte of the 4 byte date types: Mon=1..Sun=7 (BDA/HDA), Mon=0..Sun=6 (BDZ); 01.01.1900 was a Monday */
+static inline unsigned spec_weekday(long y, long m, long d, _Bool zero_based) { long wd = spec_days_since_1900(y, m, d) % 7; return (unsigned)(zero_based ? wd : wd + 1); }
+static inline int roundtrip(const DTT* t, size_t len, _Bool bcd, _Bool has_weekday) {
+  SymbolString in = slave_with(len); struct tokout o; out_init(&o);
+  result_t r = DTT_readSymbols(t, 0, len, &in, 0, &o);
+  if (r != RESULT_OK) return 0;
+  struct iss text; _Bool any_null, all_null;
+  if (!tokens_to_input(&o, &text, &any_null, &all_null)) return 0;
+  if (any_null && !all_null) return OC_NULL;             /* partially null values: not specified here */
+  SymbolString out; out.m_isMaster = 0; out.m_data.n = 1; out.m_data.d[0] = 0; size_t used = nondet_size();
+  result_t w = DTT_writeSymbols(t, 0, len, &text, &out, &used);
+  __CPROVER_assert(w == RESULT_OK, "[C06] the text a byte pattern decodes to is accepted by the encoder");
+  if (w != RESULT_OK) return OC_BAD_RANGE;
+  __CPROVER_assert(used == len && out.m_data.n == 1 + len, "[C06] the encoder produces the length of the type");
+  size_t k = nondet_size(); __CPROVER_assume(k < len);
+  if (all_null) {
+    __CPROVER_assert(has_weekday && k == 2 ? 1 : out.m_data.d[1 + k] == (symbol_t)t->m_replacement, "[C06] the null value is encoded as the replacement pattern");
+    return OC_NULL;
+  }
+  if (has_weekday && k == 2) {
+    long d = o.val[0], m = o.val[2], y = o.val[4];
+    __CPROVER_assert(out.m_data.d[3] == spec_weekday(y, m, d, (t->m_flags & SPE) != 0), "[C06] the weekday byte is regenerated from the date (calendar weekday)");
+  } else {
+    symbol_t owned = t->m_bitCount < 8 ? (symbol_t)((1u << t->m_bitCount) - 1u) : (symbol_t)0xff;
+    __CPROVER_assert(((out.m_data.d[1 + k] ^ in.m_data.d[1 + k]) & owned) == 0, "[C06] encoding the decoded text reproduces the bytes (the bits the type owns)");
+  }
+  return OC_GOOD;
+}
+#define RT(name, type, len, bcd, wd) void h_rt_##name(void) { int oc = roundtrip(&type, len, bcd, wd); SEEN(oc, OC_GOOD, "round trip") }
+RT(bti, dtt_BTI, 3, 1, 0) RT(hti, dtt_HTI, 3, 0, 0) RT(vti, dtt_VTI, 3, 0, 0) RT(btm, dtt_BTM, 2, 1, 0) RT(htm, dtt_HTM, 2, 0, 0) RT(vtm, dtt_VTM, 2, 0, 0)
+RT(min, dtt_MIN, 2, 0, 0) RT(ttm, dtt_TTM, 1, 0, 0) RT(tth, dtt_TTH, 1, 0, 0) RT(ttq, dtt_TTQ, 1, 0, 0)
+RT(bda, dtt_BDA, 4, 1, 1) RT(bda3, dtt_BDA_3, 3, 1, 0) RT(hda, dtt_HDA, 4, 0, 1) RT(hda3, dtt_HDA_3, 3, 0, 0) RT(bdz, dtt_BDZ, 4, 1, 1)
+RT(day, dtt_DAY, 2, 0, 0) RT(dtm, dtt_DTM, 4, 0, 0)
